@@ -104,6 +104,7 @@ theorem check_safe (c : Check) (v : Word) : Safe (c.run v) := by
   · split <;> exact throwIf_safe _ _ se_oor
   · exact throwIf_safe _ _ se_un
   · exact throwIf_safe _ _ se_ov
+  · exact throwIf_safe _ _ se_oor
 
 theorem runChecks_safe (cs : List Check) (v : Word) : Safe (runChecks cs v) := by
   induction cs with
@@ -184,7 +185,60 @@ theorem executeGlobals_safe (gs : List GDef) (ss : List GSt) (k : Key) : Safe (e
       · intro _ _
         apply Safe.bind (ih ss); intro _ _; trivial
 
-theorem checkGlobals_safe (gs : List GDef) (ss : List GSt) : Safe (checkGlobals gs ss) := by
+theorem compareValue_safe (k : Kind) (a b : DVal) : Safe (compareValue k a b) := by
+  unfold compareValue
+  split
+  · trivial
+  · trivial
+  · exact safe_ia
+
+theorem differInner_safe (a1 : VArg) (l : List VArg) : Safe (differInner a1 l) := by
+  induction l with
+  | nil => trivial
+  | cons a2 rest ih =>
+    simp only [differInner]
+    split
+    · apply Safe.bind (compareValue_safe _ _ _); intro _ _
+      apply Safe.bind (throwIf_safe _ _ se_rt); intro _ _; exact ih
+    · exact ih
+
+theorem differOuter_safe (all l : List VArg) : Safe (differOuter all l) := by
+  induction l with
+  | nil => trivial
+  | cons a1 rest ih =>
+    simp only [differOuter]
+    split
+    · apply Safe.bind (differInner_safe _ _); intro _ _; exact ih
+    · exact ih
+
+theorem disjointCheck_safe (l : List VArg) : Safe (disjointCheck l) := by
+  unfold disjointCheck
+  split
+  · split
+    · trivial
+    · apply Safe.bind
+      · unfold hasIntersection
+        split
+        · trivial
+        · exact safe_ia
+      · intro _ _; exact throwIf_safe _ _ se_rt
+  · trivial
+
+theorem endCheck_safe (defs : List ArgDef) (sts : List ArgSt) (g : GDef) (s : GSt) : Safe (g.endCheck defs sts s) := by
+  unfold GDef.endCheck
+  split
+  · split
+    · trivial
+    · exact safe_rt
+  · trivial
+  · split
+    · trivial
+    · exact safe_rt
+  · exact differOuter_safe _ _
+  · exact disjointCheck_safe _
+
+theorem checkGlobals_safe (defs : List ArgDef) (sts : List ArgSt) (gs : List GDef) (ss : List GSt) :
+    Safe (checkGlobals defs sts gs ss) := by
   induction gs generalizing ss with
   | nil => simp [checkGlobals]; trivial
   | cons g gs ih =>
@@ -192,11 +246,8 @@ theorem checkGlobals_safe (gs : List GDef) (ss : List GSt) : Safe (checkGlobals 
     | nil => simp [checkGlobals]; trivial
     | cons s ss =>
       simp only [checkGlobals]
-      apply Safe.bind
-      · unfold GDef.endCheck
-        repeat' split
-        all_goals first | trivial | exact safe_rt
-      · intro _ _; exact ih ss
+      apply Safe.bind (endCheck_safe _ _ _ _)
+      intro _ _; exact ih ss
 
 theorem assignValue_safe (h : HState) (i : Nat) (d : ArgDef) (v : Word) (b : Bool) : Safe (assignValue h i d v b) := by
   unfold assignValue
@@ -468,7 +519,7 @@ theorem endChecks_safe (cfg : Cfg) (h : HState) : Safe (endChecks cfg h) := by
   dsimp only
   apply Safe.bind (checkMandatoryCardinality_safe _ _); intro _ _
   apply Safe.bind (pendingCheckRequired_safe _); intro _ _
-  apply Safe.bind (checkGlobals_safe _ _); intro _ _
+  apply Safe.bind (checkGlobals_safe _ _ _ _); intro _ _
   trivial
 
 /-- `Handler::evalArguments`: for every configuration, state, file content, environment value and
@@ -571,7 +622,7 @@ theorem groupsEndChecks_safe (ms : List (Cfg × HState)) : Safe (groupsEndChecks
     · unfold memberEndChecks
       apply Safe.bind (checkMandatoryCardinality_safe _ _); intro _ _
       apply Safe.bind (pendingCheckRequired_safe _); intro _ _
-      exact checkGlobals_safe _ _
+      exact checkGlobals_safe _ _ _ _
     · intro _ _; exact ih
 
 theorem groupsEval_safe (cfg : Cfg) (inits : List DVal) (am gm order : List Nat) (argv : List Word)
